@@ -24,6 +24,7 @@ def dispatch (line : String) : String :=
     | "parse" => parseRun body
     | "grp" => grpRun body
     | "egs" => egsRun body
+    | "egr" => egrRun body
     | "eg" => egRun body
     | "expl" => explRun body
     | "prog" => progRun body
